@@ -471,8 +471,10 @@ theorem customBuildStep_ok {m : Module} {sources combined cb} {ls ls' : LoopStat
     · cases h
     · split at h
       · cases h
-      · cases h
-        exact ⟨addEntries_subset _ _, rfl⟩
+      · split at h
+        · cases h
+        · cases h
+          exact ⟨addEntries_subset _ _, rfl⟩
 
 theorem downloadStep_ok {m : Module} {ls : LoopState} {lt : LoopState × Option String}
     (h : downloadStep ev m srcdir rules flat ls = .ok lt) :
